@@ -13,7 +13,10 @@ struct C09 {
   int mode_changes = 0, probes_non_preop = 0;
   explicit C09(Ctx &cx) : c(cx), s(cx), w(s) {}
 
-  void build(uint8_t nodeid) {
+  // random mode: the event-driven TPDO may have an inhibit time of inh ticks; a transmission postponed by it goes out when the time ends - if the node is still OPERATIONAL
+  int inh = 0; long T = 0, inh_end = -1; bool pend = false; int postponed = 0, postponed_dropped = 0;
+  void build(uint8_t nodeid, int inhibit_ticks = 0) {
+    inh = inhibit_ticks;
     s.nodeid = nodeid; other = nodeid == 9 ? 10 : 9;
     w.mandatory(false, 1);                                   // heartbeat producer: 1 ms == 1 tick
     add_sync(w, 0x80, 0);
@@ -21,13 +24,13 @@ struct C09 {
     rp = &w.add_int(0x2100, 1, 1, false, false, true, true, 0, true, false);
     w.add_int(0x2101, 1, 1, false, false, true, true, 0x5A, true, false);
     add_rpdo(w, 0, 0x200u + nodeid, 254, {MAPENT(0x2100, 1, 8)}, 1);
-    add_tpdo(w, 0, 0x40000180u + nodeid, 254, 0, 0, {MAPENT(0x2101, 1, 8)}, 1);
+    add_tpdo(w, 0, 0x40000180u + nodeid, 254, (uint16_t)(10 * inh), 0, {MAPENT(0x2101, 1, 8)}, 1);
     add_tpdo(w, 1, 0x40000280u + nodeid, 1, 0, 0, {MAPENT(0x2101, 1, 8)}, 1);
     w.finish(false);
     rp = w.lookup(0x2100, 1);
   }
 
-  struct Exp { int app = 0; bool app_free = false; std::vector<int> modes; int resetreq = 0; std::vector<Frame> tx; bool tx_free = false; };
+  struct Exp { int app = 0; bool app_free = false; std::vector<int> modes; int resetreq = 0; std::vector<Frame> tx; bool tx_free = false; bool unordered = false; };
 
   void run(const char *what, const std::function<void()> &act, Exp &e, int newmode) {
     s.clear_tx(); s.clear_ev();
@@ -42,6 +45,7 @@ struct C09 {
     if (!e.tx_free) {
       CHECK(c, s.tx.size() == e.tx.size(), "frames-per-state", "%s in %s: %zu frame(s) transmitted%s%s, expected %zu%s%s", what, MN[mode], s.tx.size(), s.tx.empty() ? "" : ", first ", s.tx.empty() ? "" : s.tx[0].str().c_str(), e.tx.size(),
             e.tx.empty() ? "" : ", first ", e.tx.empty() ? "" : e.tx[0].str().c_str());
+      if (e.unordered) std::stable_sort(s.tx.begin(), s.tx.end(), [](const Frame &a, const Frame &b) { return a.id < b.id; }), std::stable_sort(e.tx.begin(), e.tx.end(), [](const Frame &a, const Frame &b) { return a.id < b.id; });
       for (size_t i = 0; i < e.tx.size(); i++) {
         const Frame &g = s.tx[i], &x = e.tx[i];
         bool ok = g.id == x.id && g.dlc == x.dlc; for (int k = 0; ok && k < x.dlc && k < 8; k++) if (x.d[k] != 0xEE && g.d[k] != x.d[k]) ok = false;
@@ -49,6 +53,7 @@ struct C09 {
       }
     }
     if (newmode != mode) mode_changes++;
+    if (newmode != mode && (newmode == M_OP || mode == M_OP)) { if (pend && mode == M_OP) postponed_dropped++; inh_end = -1; pend = false; }   // PDOs are set up afresh on entering OPERATIONAL; nothing is owed after leaving it
     mode = newmode;
     CO_MODE got = CONmtGetMode(&s.node->Nmt);
     CHECK(c, (int)got == mode, "nmt-state", "after %s the node reports mode %d, the CiA 301 state machine is in %s (%d)", what, (int)got, MN[mode], mode);
@@ -142,12 +147,14 @@ struct C09 {
   }
   void probe_trigger() {
     Exp e; probe_count();
-    if (mode == M_OP) e.tx.push_back(Frame::mk(0x180u + s.nodeid, 1, {0x5A}));
+    if (mode == M_OP) { if (inh_end >= 0) { pend = true; postponed++; } else { e.tx.push_back(Frame::mk(0x180u + s.nodeid, 1, {0x5A})); if (inh > 0) inh_end = T + inh; } }
     run("probe: COTPdoTrigPdo(0)", [&]() { s.api_begin(); COTPdoTrigPdo(s.node->TPdo, 0); s.api_end("COTPdoTrigPdo"); }, e, mode);
   }
   void tick() {
     Exp e;
     if (mode == M_PREOP || mode == M_OP || mode == M_STOP) e.tx.push_back(Frame::mk(0x700u + s.nodeid, 1, {(uint8_t)(mode == M_PREOP ? 127 : mode == M_OP ? 5 : 4)}));
+    T++;
+    if (inh_end == T) { inh_end = -1; if (pend) { pend = false; if (mode == M_OP) { e.tx.push_back(Frame::mk(0x180u + s.nodeid, 1, {0x5A})); e.unordered = true; inh_end = T + inh; } } }
     run("tick (heartbeat period = 1 tick)", [&]() { s.step_tick(); }, e, mode);
   }
 
@@ -179,6 +186,7 @@ struct C09 {
     if (mode_changes >= 2 && probes_non_preop >= 1) c.nontrivial = true;
     c.cls(mode_changes >= 2 ? "two-or-more-mode-changes" : "fewer-mode-changes");
     if (probes_non_preop) c.cls("probe-outside-pre-operational");
+    if (postponed) c.cls("tpdo-postponed-by-inhibit-time"); if (postponed_dropped) c.cls("left-operational-with-postponed-tpdo");
   }
 };
 
@@ -188,7 +196,7 @@ void case_enum(Ctx &c) {
   x.finish();
 }
 void case_random(Ctx &c) {
-  C09 x(c); x.build((uint8_t)(1 + c.t.below(127)));
+  C09 x(c); { uint8_t nid = (uint8_t)(1 + c.t.below(127)); x.build(nid, c.t.coin() ? 1 + (int)c.t.below(5) : 0); }
   int steps = 0;
   while (!c.t.exhausted() && steps < 200) {
     steps++; c.ops++;
@@ -205,7 +213,7 @@ void case_random(Ctx &c) {
 
 Registrar reg(Prop{
     "C09",
-    "Cases: a node with one SDO server, an event-driven and a synchronous TPDO, an asynchronous RPDO, a heartbeat consumer entry, SYNC consumer, LSS, EMCY and a heartbeat producer of 1 tick; "
+    "Cases: a node with one SDO server, an event-driven TPDO (random mode: with an inhibit time of 0..5 ticks, so that a postponed transmission can fall due after OPERATIONAL was left) and a synchronous TPDO, an asynchronous RPDO, a heartbeat consumer entry, SYNC consumer, LSS, EMCY and a heartbeat producer of 1 tick; "
     "operation sequences over a 30-letter alphabet {NMT command {1,2,128,129,130} x {own id, 0}, start/reset to another id, unknown command specifiers, CONmtSetMode x3, CONodeStart, CONmtReset x2, one probe per service "
     "(SDO read, RPDO frame, SYNC, heartbeat of the monitored node, LSS, unrelated id, EMCY set/clear, TPDO trigger, tick), CONodeStop}: enumerated exhaustively to the depth bound (node id 1) and randomly up to 200 ops with node ids 1..127, random command specifiers/targets and heartbeat states. "
     "Oracle: reference CiA 301 slave state machine: mode after every op, exact mode-change and reset-request callback sequences, exactly the expected frames (boot-up once per INIT->PRE-OP entry; SDO answer only in PRE-OP/OP; TPDOs only in OP; EMCY only in PRE-OP/OP; heartbeat with the state byte in PRE-OP/OP/STOPPED; LSS answer always), "
